@@ -657,7 +657,7 @@ pub fn rule_for(prop: &str) -> String {
         "C14" => "generated histories over themes with recurring names; non-trivial = the same element name occurs at several positions",
         "C15" => "all pairs of duplicate-free tagged lists over a small alphabet (exhaustive), random pairs up to length 40 beyond; distinct = hash of the case line; non-trivial = the second list has >= 2 items absent from the first",
         "C16" => "all operation sequences up to a length bound over a fixed single-operation alphabet (exhaustive), random sequences up to length 60 at depth <= 3 beyond; non-trivial = the sequence adds a present name, or removes then adds, or operates on a name after set_child_optional",
-        "C06" => "generated histories of 2-5 documents, each paired with 3 permutations, a duplication, an interleaving with element-less inputs and an insertion of a faulty document; non-trivial = the schema has >= 2 positions",
+        "C06" => "generated histories of 2-5 documents, each paired with 3 permutations, a duplication, an interleaving with element-less inputs, an insertion of a faulty document and a variant whose first input repeats its root element; non-trivial = the schema has >= 2 positions",
         "C02" => "generated data-oriented histories; each rendering (quick-xml preset, unchanged, and a copy with deny_unknown_fields on every struct) is compiled by the real rustc with serde_derive and run: quick_xml::de::from_str on every source document, the value is fed to a string-collecting Serializer (every attribute value and text must be in it) and to a dumping Serializer whose output is compared with the value the Lean deserializer model (Model/Deser.lean) computes from the rendered text, for the source documents and for 1-3 foreign variants per program (extra.deser_model_*); non-trivial = program with >= 2 structs, >= 1 Option and >= 1 Vec field",
         "C13" => "as C02 with the serde-xml-rs preset and serde_xml_rs::from_str (namespace-free, repeated children adjacent, attribute names distinct from child names); non-trivial = program with >= 2 structs, >= 1 Option and >= 1 Vec field",
         "C12" => "scenarios = input (generated valid document, structured fault, byte mutation, not UTF-8, missing, directory) x --parser x --derive x --sort x output (stdout, new file, existing file, missing directory, a directory), run with the real binary in a fresh directory; non-trivial = not (valid input, all defaults, stdout)",
@@ -1083,6 +1083,19 @@ pub fn check_c06(sum: &mut Summary) {
             f.docs.insert(j, DocInput::from_bytes(bad));
             cases.push(PairCase { rel: "faulty".into(), a: base.clone(), b: f, nontrivial: true });
         }
+        {
+            // the first two documents supplied as one input that repeats its root element (the structure's root is
+            // then marked as repeated), followed by the other documents, an element-less input and one document again
+            let mut g = base.clone();
+            let mut bytes = g.docs[0].bytes.clone();
+            bytes.extend_from_slice(b"\n");
+            bytes.extend_from_slice(&g.docs[1].bytes);
+            g.docs.splice(0..2, [DocInput::from_bytes(bytes)]);
+            g.docs.push(elementless_doc(&mut r));
+            let again = base.docs[r.below(base.docs.len())].clone();
+            g.docs.push(again);
+            cases.push(PairCase { rel: "fragment".into(), a: base.clone(), b: g, nontrivial: true });
+        }
     }
     run_cases(sum, cases, 3);
 }
@@ -1128,7 +1141,7 @@ pub fn check_c12(sum: &mut Summary) {
             _ => Some("serde::Serialize, serde::Deserialize".to_string()),
         };
         let sort = match r.below(3) { 0 => None, 1 => Some("unsorted".to_string()), _ => Some("name".to_string()) };
-        let output = match r.below(6) { 0 | 1 => OutKind::Stdout, 2 => OutKind::NewFile, 3 => OutKind::Existing("previous content\n".into()), 4 => OutKind::MissingDir, _ => OutKind::IsDirectory };
+        let output = match r.below(7) { 0 | 1 => OutKind::Stdout, 2 => OutKind::NewFile, 3 => OutKind::Existing(if r.chance(1, 2) { "previous content\n".into() } else { "// previous content, longer than anything this run will write\n".repeat(400) }), 4 => OutKind::MissingDir, 5 => OutKind::IsDirectory, _ => OutKind::SameAsInput };
         if i == 0 {
             cases.push(CliCase { input: InputKind::Bytes(xml.clone().into_bytes()), label: "valid".into(), parser: None, derive: None, sort: None, output: OutKind::Stdout });
         }
